@@ -281,6 +281,26 @@ def check(model: Model, run: Run) -> None:
 
     growth_rule(model, run)
 
+    # ------------------------------------------------------------------ R11 which section of the UPDATE a route goes to
+    run.rule(
+        'C01.R11',
+        'RFC 4271 / 4760: the NLRI and withdrawn-routes fields of the UPDATE are IPv4 unicast (and an announce there has its '
+        'next hop in the NEXT_HOP attribute, an IPv4 address); every other route goes to MP_REACH / MP_UNREACH.  The two '
+        'sorting loops of UpdateCollection.messages are evaluated for one turn on every (AFI, SAFI, next-hop AFI) case',
+        floor=20,
+    )
+    _r11_sections(model, run, folder)
+
+    # ------------------------------------------------------------------ R12 no UPDATE without a route
+    run.rule(
+        'C01.R12',
+        'UpdateCollection.messages never emits an UPDATE that carries no route: every yield whose payload is built from the '
+        'route buffers (withdrawn, NLRI, MP_REACH, MP_UNREACH) stands under a test that one of them is not empty - `0000 0000` '
+        'is the IPv4 unicast End-of-RIB marker, which nobody asked for',
+        floor=4,
+    )
+    _r12_no_empty_update(model, run)
+
     # ------------------------------------------------------------------ R6 next-hop self
     run.rule('C01.R6', 'next-hop self is resolved before the RIB: every OutgoingRIB.add_to_rib* / del_from_rib call from configuration/ and reactor/api/ passes Neighbor.resolve_self(route) (or a cached/already resolved route), and _update_rib refuses an unresolved sentinel', floor=4)
     _r6_self(model, run)
@@ -699,3 +719,100 @@ def _r10_index_presence(model: Model, run: Run) -> None:
         'and no as-path at all get one index, the outgoing RIB keeps one collection for both and on eBGP one of the two routes goes out '
         'with the other one\'s AS_PATH' % (cfg.describe_path(silent) if silent else ''),
     )
+
+
+def _r11_sections(model: Model, run: Run, folder: Folder) -> None:
+    from ..evalfn import Raised, Undecided, eval_function
+
+    fi = model.func('exabgp.bgp.message.update.collection.UpdateCollection.messages')
+    run.analysed(fi)
+    # the buffers: plain lists end in the NLRI / withdrawn fields, the per-family dicts in MP_REACH / MP_UNREACH
+    plain, keyed = set(), set()
+    for st in fi.node.body:
+        tg = st.targets[0] if isinstance(st, ast.Assign) and len(st.targets) == 1 else st.target if isinstance(st, ast.AnnAssign) else None
+        v = getattr(st, 'value', None)
+        if isinstance(tg, ast.Name) and isinstance(v, ast.List) and not v.elts:
+            plain.add(tg.id)
+        if isinstance(tg, ast.Name) and isinstance(v, ast.Dict) and not v.keys:
+            keyed.add(tg.id)
+    loops = [st for st in fi.node.body if isinstance(st, ast.For) and isinstance(st.target, ast.Name)]
+    ann = [lp for lp in loops if 'self._announces' in norm(lp.iter)]
+    wdr = [lp for lp in loops if 'self._withdraws' in norm(lp.iter)]
+    if len(ann) != 1 or len(wdr) != 1 or not plain or not keyed:
+        run.cannot('messages(): the announce / withdraw sorting loops or their buffers were not found (%d, %d, %s, %s)' % (len(ann), len(wdr), sorted(plain), sorted(keyed)))
+        return
+
+    def unknown(e: ast.AST):
+        t = norm(e)
+        if t.startswith('isinstance(') and 'Empty' in t:
+            return False
+        if 'negotiated.families' in t:
+            return False  # the family was negotiated
+        if 'validate_announce_nlri' in t:
+            return None
+        return UNKNOWN
+
+    def turn(loop: ast.For, item: dict) -> tuple[list[str], object]:
+        eff: list[str] = []
+
+        def effect(call: ast.Call, env: dict) -> bool:
+            f = call.func
+            if isinstance(f, ast.Attribute) and f.attr in ('append', 'extend', 'add'):
+                root = f.value
+                while isinstance(root, (ast.Attribute, ast.Call, ast.Subscript)):
+                    root = root.func if isinstance(root, ast.Call) else root.value
+                if isinstance(root, ast.Name) and root.id in plain | keyed:
+                    eff.append('plain' if root.id in plain else 'keyed')
+                    return True
+            return False
+
+        r = eval_function(folder, fi, {loop.target.id: item}, body=loop.body, outcomes=True, on_unknown=unknown, on_effect=effect)
+        return eff, r
+
+    AFIS = {'ipv4': 1, 'ipv6': 2}
+    SAFIS = {'unicast': 1, 'multicast': 2, 'nlri-mpls': 4, 'mpls-vpn': 128, 'flow': 133}
+    for an, a in AFIS.items():
+        for sn, sf in SAFIS.items():
+            nlri = {'afi': a, 'safi': sf}
+            # withdraws
+            eff, r = turn(wdr[0], nlri)
+            want = ['plain'] if (a, sf) == (1, 1) else ['keyed']
+            if isinstance(r, Undecided):
+                run.cannot('messages(): withdraw of %s %s: statement at line %s not evaluated' % (an, sn, getattr(r.at, 'lineno', '?')))
+            else:
+                run.check(eff == want and not isinstance(r, Raised), fi.qualname, 'withdraw of %s %s goes to %s' % (an, sn, eff or r), fi.loc(wdr[0]), 'the withdrawn-routes field is IPv4 unicast only (RFC 4271 4.3): a route of another family written there is withdrawn as an IPv4 unicast prefix; expected %s' % want)
+            for nn, nh in (('ipv4', 1), ('ipv6', 2)):
+                if sf == 133:
+                    continue
+                eff, r = turn(ann[0], {'nlri': nlri, 'nexthop': {'afi': nh}})
+                want = ['plain'] if (a, sf, nh) == (1, 1, 1) else ['keyed']
+                if isinstance(r, Undecided):
+                    run.cannot('messages(): announce of %s %s via %s: statement at line %s not evaluated' % (an, sn, nn, getattr(r.at, 'lineno', '?')))
+                    continue
+                run.check(eff == want and not isinstance(r, Raised), fi.qualname, 'announce of %s %s with an %s next hop goes to %s' % (an, sn, nn, eff or r), fi.loc(ann[0]), 'the NLRI field is IPv4 unicast with the next hop in NEXT_HOP, an IPv4 address (RFC 4271 4.3, RFC 4760, RFC 8950): anything else written there is announced as an IPv4 unicast prefix, or without a next hop; expected %s' % want)
+
+
+def _r12_no_empty_update(model: Model, run: Run) -> None:
+    fi = model.func('exabgp.bgp.message.update.collection.UpdateCollection.messages')
+    run.analysed(fi)
+    loc = Loc(model, fi)
+    # the route buffers: byte strings that start empty (b'') - the packed attributes are not one of them
+    buffers = {nm for nm, ds in loc.defs.items() if any(isinstance(v, ast.Constant) and v.value == b'' for v, h, _ in ds if h == 'assign')}
+    if len(buffers) < 4:
+        run.cannot('messages(): fewer than 4 route buffers found (%s)' % sorted(buffers))
+        return
+    pm = parent_map(fi.node)
+    n = 0
+    for y in walk_no_nested(fi.node):
+        if not (isinstance(y, ast.Yield) and isinstance(y.value, ast.Call) and norm(y.value.func).endswith('_message')):
+            continue
+        used = {x.id for x in ast.walk(y.value) if isinstance(x, ast.Name) and x.id in buffers}
+        if not used:
+            continue  # the attributes-only UPDATE, asked for as such
+        n += 1
+        tested = set()
+        for t, pol in flat_guards(fi.node, y, pm):
+            tested |= {x.id for x in ast.walk(t) if isinstance(x, ast.Name) and x.id in buffers}
+        run.check(bool(tested), fi.qualname, 'UPDATE built from %s is emitted under a test of %s' % (sorted(used), sorted(tested) or 'none of them'), fi.loc(y), 'when every buffer is empty (the withdraws of the family are held back in the first batch of a session) the message is `0000 0000`: the peer reads the End-of-RIB of IPv4 unicast')
+    if n < 4:
+        run.cannot('messages(): only %d yields built from the route buffers' % n)
